@@ -1,4 +1,273 @@
-def rule_duration_formula(ctx, rule):
-    pass
+"""C03 - delay / repeat / reverse -> bounded, periodic, mirrored position (DESIGN.md section 5, C03)."""
+from rules import timescale_table as TT
+from rulelib import trace_of, calls
+import pse
+import terms
+import intervals
+from intervals import ival
+from pse import show
+
+TL = "mina_core::timeline::Timeline"
+
+
+def rule_range(ctx, tab, rule="R1"):
+    n = 0
+    for r in tab["rows"]:
+        if r.kind not in ("Active", "Ended"):
+            continue
+        if r.env.infeasible:
+            ctx.extra.setdefault("infeasible_rows", []).append(r.label)
+            continue
+        n += 1
+        iv = ival(r.pos, r.env)
+        ok = iv is not None and iv.within(0.0, 1.0)
+        ctx.ob(rule, "range/" + r.label, ok,
+               "the position handed on must lie in [0,1] (cycle duration D finite > 0, finite time): %s is in %s"
+               % (show(r.pos), iv), tab["body"]["span"], trace_of(r.path), what="position-out-of-range")
+    ctx.floor(rule, "feasible Active/Ended rows of get_position", n, 20)
+
+
+def rule_mirror(ctx, tab, rule="R2"):
+    rising, falling = {}, {}
+    for r in tab["rows"]:
+        if r.kind != "Active" or r.reverse != 1 or r.env.infeasible:
+            continue
+        fold = [(t, v) for (t, v, s) in r.path.conds if t[0] == "bin" and t[1] == "Lt" and intervals.fval(t[2]) is not None
+                and isinstance(v, int) and t[3] != tab["S"] and not pse.contains(t[2], tab["S"])]
+        if not fold:
+            ctx.ob(rule, "mirror/" + r.label, False, "reversing row without a fold test", tab["body"]["span"],
+                   trace_of(r.path), what="no-fold-test")
+            continue
+        t, v = fold[-1]
+        thr, ratio = intervals.fval(t[2]), t[3]
+        ctx.ob(rule, "threshold/" + r.label, thr == 0.5, "the fold must be at one half of the cycle, is at %s" % thr,
+               tab["body"]["span"], what="fold-threshold")
+        Rm = ("R",)
+        p = terms.poly(terms.subst(r.pos, {ratio: Rm}))
+        (falling if v == 1 else rising).setdefault(show(ratio), []).append((p, r))
+        # the reversing flag is the fold literal itself
+        flag = dict(r.loop[4]).get("is_reversing") if r.loop and r.loop[0] == "agg" else None
+        ctx.ob(rule, "reversing-flag/" + r.label, flag == pse.mk_bool(v == 1),
+               "is_reversing must be exactly `reverse and ratio > 1/2`", tab["body"]["span"], trace_of(r.path),
+               what="reversing-flag")
+    n = 0
+    for key, fl in falling.items():
+        for (pf, rf) in fl:
+            for (pr, rr) in rising.get(key, []):
+                n += 1
+                Rm = ("R",)
+                mirrored = terms.p_subst(pr, Rm, terms.p_add(terms.p_const(1), terms.p_atom(Rm), -1))
+                ctx.ob(rule, "mirror/%s" % key, mirrored == pf,
+                       "falling branch must be the rising branch mirrored, g(r) = f(1-r): rising %s, falling %s"
+                       % (terms.p_show(pr), terms.p_show(pf)), tab["body"]["span"], what="not-mirrored")
+                ctx.ob(rule, "rise-linear/%s" % key, pr == terms.p_mul(terms.p_const(2), terms.p_atom(Rm)),
+                       "rising branch of a reversing cycle must be 2r, is %s" % terms.p_show(pr), tab["body"]["span"],
+                       what="rise-not-2r")
+    ctx.floor(rule, "rising/falling pairs", n, 2)
+    # forward rows: the position is the ratio itself
+    for r in tab["rows"]:
+        if r.kind == "Active" and r.reverse == 0 and not r.env.infeasible:
+            ok = r.pos[0] == "bin" and r.pos[1] == "Div" and r.pos[3] == tab["D"]
+            ctx.ob(rule, "forward/" + r.label, ok, "forward position must be cycle_time / duration, is %s" % show(r.pos),
+                   tab["body"]["span"], what="forward-not-ratio")
+            flag = dict(r.loop[4]).get("is_reversing")
+            ctx.ob(rule, "forward-flag/" + r.label, flag == pse.mk_bool(False), "non-reversing timeline never reverses",
+                   tab["body"]["span"], what="reversing-flag")
+
+
+def rule_not_started(ctx, tab, rule="R3"):
+    S = tab["S"]
+    lit = pse.mk_bin("Lt", S, ("const", "f32", ("f", 0, 0.0)))
+    ns = [r for r in tab["rows"] if r.kind == "NotStarted"]
+    ok = len(ns) >= 1
+    for r in ns:
+        cs = [(t, v) for (t, v, s) in r.path.conds]
+        ok = ok and cs == [(lit, 1)]
+    ctx.ob(rule, "not-started-iff-time<delay", ok,
+           "NotStarted must be returned exactly under `time - delay < 0` (strict); rows: %s"
+           % [[(show(t), v) for (t, v, s) in r.path.conds] for r in ns], tab["body"]["span"], what="not-started-test")
+    for r in tab["rows"]:
+        if r.kind != "NotStarted":
+            first = r.path.conds[0] if r.path.conds else None
+            ctx.ob(rule, "started/" + r.label, first is not None and first[0] == lit and first[1] == 0,
+                   "every other row is taken only when time - delay >= 0", tab["body"]["span"], what="started-test")
+
+
+def rule_duration_formula(ctx, rule="R4", tab=None):
+    """end test of get_position agrees with get_duration; INFINITY iff Repeat::Infinite"""
+    F = ctx.facts
+    tab = tab or TT.build(ctx)
+    roles = tab["roles"]
+    S, D = tab["S"], tab["D"]
+    delay = TT.fld(roles["delay"])
+    gd = F.one(crate="mina_core", name="get_duration", impl_self_adt=TT.TS)
+    eng = pse.Engine(F)
+    ps = eng.run(gd)
+    ctx.count_paths(ps, gd)
+    inf_rows = [p for p in ps if intervals.fval(p.ret) == float("inf")]
+    fin_rows = [p for p in ps if p not in inf_rows and p.outcome == "return"]
+    okinf = len(inf_rows) >= 1
+    for p in inf_rows:
+        # reached exactly under repeat == Infinite
+        okinf = okinf and any(_is_infinite_test(t, roles) and v == 1 for (t, v, s) in p.conds)
+    for p in fin_rows:
+        okinf = okinf and any(_is_infinite_test(t, roles) and v == 0 for (t, v, s) in p.conds)
+    ctx.ob(rule, "get_duration/infinite-iff-Infinite", okinf,
+           "get_duration must be INFINITY exactly when repeat is Infinite", gd["span"], what="infinite-duration-test")
+    # threshold per variant vs duration formula with as_ordinal specialised
+    ordinal = {"None": ("const", "u32", 0), "Times": ("field", ("variant", TT.fld(roles["repeat"]), "Times"), "0")}
+    n = 0
+    for r in tab["rows"]:
+        if r.kind != "Ended":
+            continue
+        ends = [(t, v) for (t, v, s) in r.path.conds if t[0] == "bin" and t[1] == "Lt" and t[3] == S]
+        ok = len(ends) == 1 and ends[0][1] == 1
+        ctx.ob(rule, "ended-strict/" + r.label, ok,
+               "the end test must be strict: threshold < time-since-delay (t = end is still the last Active instant)",
+               tab["body"]["span"], trace_of(r.path), what="end-test-not-strict")
+        if not ok or r.repeat not in ordinal:
+            if r.repeat == "Infinite":
+                ctx.ob(rule, "never-ended/" + r.label, False, "an infinitely repeating timeline must never end",
+                       tab["body"]["span"], trace_of(r.path), what="infinite-ends")
+            continue
+        n += 1
+        thr = terms.poly(ends[0][0][2])
+        for p in fin_rows:
+            call = [x for x in pse.subterms(p.ret) if x[0] == "call" and x[1].endswith("Repeat::as_ordinal")]
+            rp = terms.subst(p.ret, {c: ordinal[r.repeat] for c in call})
+            # as_ordinal inlined: the row is already specialised to one variant
+            pv = None
+            for (t, v, s) in p.conds:
+                if t[0] == "discr" and t[1] == TT.fld(roles["repeat"]) and not isinstance(v, tuple):
+                    pv = {int(d): nme for nme, d in t[2]}.get(v)
+            if pv is not None and pv != r.repeat:
+                continue
+            try:
+                dur = terms.poly(rp)
+            except terms.NotPoly:
+                ctx.ob(rule, "duration-poly", False, "get_duration is not a polynomial: %s" % show(p.ret), gd["span"],
+                       what="duration-not-polynomial")
+                continue
+            want = terms.p_add(thr, terms.p_atom(delay))
+            ctx.ob(rule, "end-agrees-with-duration/%s" % r.label, dur == want,
+                   "position becomes terminal when time-since-delay exceeds %s, but the reported total duration is %s "
+                   "(must be delay + that)" % (terms.p_show(thr), terms.p_show(dur)), tab["body"]["span"],
+                   what="end-threshold-differs-from-duration")
+    ctx.floor(rule, "Ended rows with finite repeat", n, 4)
+    for r in tab["rows"]:
+        if r.repeat == "Infinite":
+            ctx.ob(rule, "never-ended/" + r.label, r.kind != "Ended", "an infinitely repeating timeline never ends",
+                   tab["body"]["span"], what="infinite-ends")
+
+
+def _is_infinite_test(t, roles):
+    rep = TT.fld(roles["repeat"])
+    if t[0] == "bin" and t[1] == "Eq" and rep in (t[2], t[3]):
+        other = t[3] if t[2] == rep else t[2]
+        return pse.unit_variant(other) is not None and pse.unit_variant(other)[1] == "Infinite"
+    return False
+
+
+def rule_metadata(ctx, tab, rule="R5"):
+    """configuration parameters flow into the same-meaning TimeScale fields and out of the getters"""
+    F = ctx.facts
+    roles = tab["roles"]
+    # 1. configuration setters -> configuration fields
+    cfg = {}
+    for meth in ("duration_seconds", "delay_seconds", "repeat", "reverse"):
+        b = F.one(crate="mina_core", name=meth, impl_trait="mina_core::timeline::TimelineConfigurationBuilder")
+        ps = [p for p in pse.Engine(F).run(b) if p.outcome == "return"]
+        ok = len(ps) == 1
+        where = None
+        if ok:
+            r = ps[0].ret
+            changed = []
+            t = r
+            while t[0] == "upd":
+                changed.append((t[2], t[3]))
+                t = t[1]
+            ok = t == ("param", 1) and len(changed) == 1 and changed[0][1] == ("param", 2) and changed[0][0][0] == "field"
+            where = changed[0][0][1] if ok else None
+        cfg[meth] = where
+        ctx.ob(rule, "config-setter/" + meth, ok, "%s must store its argument in exactly one field" % meth, b["span"],
+               what="config-setter")
+    # 2. create_timescale: config fields -> TimeScale roles
+    ct = F.one(crate="mina_core", name="create_timescale")
+    ps = [p for p in pse.Engine(F).run(ct) if p.outcome == "return"]
+    ok = len(ps) == 1 and ps[0].ret[0] == "agg"
+    if ok:
+        got = dict(ps[0].ret[4])
+        want = {roles["duration"]: "duration_seconds", roles["delay"]: "delay_seconds", roles["repeat"]: "repeat",
+                roles["reverse"]: "reverse"}
+        for tsf, meth in want.items():
+            v = got.get(tsf)
+            okf = cfg.get(meth) is not None and v == ("field", ("deref", ("param", 1)), cfg[meth])
+            ctx.ob(rule, "flow/%s->TimeScale.%s" % (meth, tsf), okf,
+                   "the value given to %s must become the time scale's %s; it receives %s" % (meth, tsf, show(v)),
+                   ct["span"], what="metadata-flow")
+    else:
+        ctx.ob(rule, "flow/create_timescale", False, "create_timescale must build a TimeScale", ct["span"], what="metadata-flow")
+    # 3. getters
+    for g, role in (("get_cycle_duration", "duration"), ("get_delay", "delay"), ("get_repeat", "repeat")):
+        b = F.one(crate="mina_core", name=g, impl_self_adt=TT.TS)
+        ps = [p for p in pse.Engine(F).run(b) if p.outcome == "return"]
+        ok = len(ps) == 1 and ps[0].ret == TT.fld(roles[role])
+        ctx.ob(rule, "getter/" + g, ok, "%s must return the %s field; returns %s" % (g, role, [show(p.ret) for p in ps]),
+               b["span"], what="getter")
+    # 4. generated accessors delegate to the same-meaning getter (repo derive uses + witness family)
+    bodies = []
+    for meth in ("cycle_duration", "delay", "duration", "repeat"):
+        for b in F.find(name=meth, impl_trait=TL):
+            # derive-generated impls compiled by the repository's own build + the hand-written sibling
+            if b.get("impl_exp") or F.body_unit[b["id"]][0] == "macroless_timeline":
+                bodies.append((F, b))
+    try:
+        import witness
+        for meth in ("cycle_duration", "delay", "duration", "repeat"):
+            for b in witness.derive_bodies(ctx, name=meth, impl_trait=TL):
+                bodies.append((b["_facts"], b))
+    except ImportError:
+        pass
+    n = 0
+    for (FF, b) in bodies:
+        check_accessor(ctx, FF, b, rule)
+        n += 1
+    ctx.floor(rule, "generated Timeline accessors", n, 8)
+
+
+SIBLING = {"cycle_duration": "get_cycle_duration", "delay": "get_delay", "duration": "get_duration",
+           "repeat": "get_repeat"}
+
+
+def check_accessor(ctx, FF, b, rule):
+    meth = b["name"]
+    ps = [p for p in pse.Engine(FF, inline=lambda fn, bb: False).run(b) if p.outcome == "return"]
+    ok = len(ps) == 1
+    got = None
+    if ok:
+        r = ps[0].ret
+        if meth == "cycle_duration" and r[0] == "agg" and r[3] == "Some":
+            r = r[4][0][1]
+        got = r
+        ok = r[0] == "call" and r[1] == "mina_core::time_scale::TimeScale::" + SIBLING[meth] and \
+            r[2][0][0] == "&" and r[2][0][1][0] == "field" and r[2][0][1][1] == ("deref", ("param", 1))
+    if b["path"].startswith("<macroless_timeline::") and not ok:
+        ctx.notes.append("sibling note: hand-written %s does not delegate to %s (%s) - examples are not library behaviour"
+                         % (b["path"], SIBLING[meth], show(got) if got else "?"))
+        return
+    ctx.ob(rule, "accessor/" + b["path"], ok,
+           "generated %s() must return timescale.%s(); returns %s" % (meth, SIBLING[meth], show(got) if got else "?"),
+           b["span"], what="accessor-wrong-getter")
+
+
 def check(ctx):
-    pass
+    tab = TT.build(ctx)
+    ctx.extra["timescale_roles"] = tab["roles"]
+    rule_range(ctx, tab)
+    rule_mirror(ctx, tab)
+    rule_not_started(ctx, tab)
+    rule_duration_formula(ctx, "R4", tab)
+    rule_metadata(ctx, tab)
+    ctx.notes.append("not decided: linear rise and exact periodicity as numeric relations over all f32 times")
+    ctx.assumptions += ["cycle duration D finite and > 0, time finite (valid configuration)",
+                        "f32 division, remainder, subtraction are correctly rounded and monotone"]
